@@ -40,6 +40,7 @@ def required(tier):
         "layout.comments": 500,
         "layout.rule": 500,
         "layout.ws": 1000,
+        "layout.custom_ws": 300,
         "augmented_production_checked": 100,
         "cover.layout_parser_init": 5,
     }
@@ -99,12 +100,17 @@ def run(ctx):
     con.report(ctx)
 
 
+CUSTOM_WS = "_~ "
+CUSTOM_FILLERS = ["", "_", "~", " ", "_~", "~ _", "  "]
+
+
 def parsers_for(text, kind):
+    kw = {"ws": CUSTOM_WS} if kind == "custom_ws" else {}
     pg = pgx.grammar(text)
-    glr = pgx.glr(pg)
+    glr = pgx.glr(pg, **kw)
     lr = None
     try:
-        lr = pgx.lr(pgx.grammar(text), build_tree=True)
+        lr = pgx.lr(pgx.grammar(text), build_tree=True, **kw)
     except Exception:  # noqa: BLE001
         pass
     return pg, glr, lr
@@ -118,6 +124,7 @@ def one_grammar(ctx, g, alphabet, maxlen):
         "ws": g.text(),
         "rule": g.text(extra_rules=WS_LAYOUT.strip(), extra_terms=WS_TERMS),
         "comments": g.text(extra_rules=COMMENT_LAYOUT.strip(), extra_terms=COMMENT_TERMS),
+        "custom_ws": g.text(),
     }
     built = {}
     try:
@@ -142,10 +149,10 @@ def one_grammar(ctx, g, alphabet, maxlen):
     for w in cfg.all_strings(alphabet, maxlen):
         if not ctx.more():
             return
-        for kind in ("ws", "rule", "comments"):
+        for kind in ("ws", "rule", "comments", "custom_ws"):
             if kind != "ws" and rng.random() < 0.5:
                 continue
-            fillers = COMMENT_FILLERS if kind == "comments" else glrwork.LAYOUT_FILLERS
+            fillers = COMMENT_FILLERS if kind == "comments" else (CUSTOM_FILLERS if kind == "custom_ws" else glrwork.LAYOUT_FILLERS)
             a = layout_strings(w, rng, fillers)
             b = layout_strings(w, rng, fillers)
             ctx.count("layout." + kind)
